@@ -914,3 +914,12 @@ package mail
 
 // C06 (continued): the IgnoreInvalid setters parse what the caller passed (not a re-encoded form of it)
 //@ at mail.Msg.SetAddrHeaderIgnoreInvalid netmail.ParseAddress#1 before assert[C06:parsed-as-given] arg0 == addrVal
+
+// C08 (continued), OPEN finding: a part's MIME headers must be the same bytes at every depth. At depth 0 they are
+// written by writeHeader, which folds; at depth > 0 by multipart.Writer.CreatePart, which does not. mw.folds
+// (ghost) counts the folds writeHeader inserts; the part headers written at depth 0 must not add any.
+//@ ghost field folds int
+//@ ghost field folds0 int
+//@ at mail.msgWriter.writeHeader strings.Builder.WriteString#3 after ghost[C08:g] mw.folds = mw.folds + 1
+//@ at mail.msgWriter.writePart entry ghost[C08:g] mw.folds0 = mw.folds
+//@ at mail.msgWriter.writePart mail.msgWriter.writeString#1 before assert[C08:part-headers-same-bytes-at-every-depth] mw.folds == mw.folds0
